@@ -1555,6 +1555,18 @@ def np_reshape(a, shape):
 REG["numpy.reshape"] = np_reshape
 
 
+@reg("numpy.take_along_axis")
+def np_take_along_axis(arr, indices, axis):
+    """result[k, c] = arr[indices[k, 0], c] for a (R, C) array, (K, 1) integer indices and axis 0 (numpy broadcasts the
+    index column over the other axis); other uses are outside the modelled subset"""
+    a, ix = A.from_nested(arr), A.from_nested(indices)
+    if not (a.ndim == 2 and ix.ndim == 2 and axis == 0 and isinstance(ix.shape[1], int) and ix.shape[1] == 1):
+        raise Unsupported("take_along_axis other than rows of a matrix")
+    af, xf = a.snapshot(), ix.snapshot()
+    n0 = a.shape[0]
+    return SArr((ix.shape[0], a.shape[1]), lambda idx: af((A.norm_index(xf((idx[0], 0)), n0, force=True), idx[1])), a.dtype)
+
+
 def _getattr_hook(interp, obj, name):
     if isinstance(obj, SArr):
         return _arr_method(obj, name)
